@@ -45,9 +45,12 @@ func removeTwoNodeCycles(g *graph.DGraph) {
 
 	for _, e := range g.Edges {
 		a, b := e.From, e.To
-		if seen[pair{a, b}] || seen[pair{b, a}] {
+		if seen[pair{b, a}] {
+			// e closes a two-node cycle with an edge seen earlier
 			rev = append(rev, e)
 		} else {
+			// first edge between a and b, or parallel to an edge seen earlier:
+			// reversing a parallel edge would create a two-node cycle instead of removing one
 			seen[pair{a, b}] = true
 		}
 	}
